@@ -528,10 +528,49 @@ func (tr *FnCtx) monitorVars(args []*Val) map[string]*Val {
 	return map[string]*Val{"r": {T: types.NewPointer(l.S), A: []string{l.Obj}}}
 }
 
+// havocShared: while this goroutine did not hold the lock, other goroutines may have changed every shared
+// location. Local variables (L.*) and ghost state of this goroutine survive; everything else is unknown
+// again, constrained only by the monitor invariant and the declared rely conditions.
+func (tr *FnCtx) havocShared(st *State) {
+	prev := st.clone()
+	keep := map[string]string{}
+	for k, sort := range tr.comps {
+		if strings.HasPrefix(k, "L.") || strings.HasPrefix(k, "$") {
+			keep[k] = tr.cur(st, Comp{k, sort, false})
+		}
+	}
+	tr.havocAll(st)
+	for k, v := range keep {
+		st.Comps[k] = v
+	}
+	if tr.genPrev == nil {
+		tr.genPrev = map[int]*State{}
+	}
+	tr.genPrev[st.Gen] = prev
+	a0 := tr.cur(prev, compAlloc)
+	na := tr.havocComp(st, compAlloc)
+	tr.assume("(>= " + na + " " + a0 + ")")
+	tr.use("interference: captured variables and unpublished objects of a goroutine are not written by other goroutines")
+}
+
 func (tr *FnCtx) monitorEnter(st *State, args []*Val) {
 	vars := tr.monitorVars(args)
 	if vars == nil {
 		return
+	}
+	if (st.UnlockSnap != nil || tr.ghostCounts["unlock"] > 0) && len(tr.W.C.Relies) > 0 {
+		// re-acquisition: interference by other critical sections since the last release
+		prev := st.UnlockSnap
+		tr.havocShared(st)
+		if prev != nil {
+			for _, m := range tr.W.C.Relies {
+				if m.Pkg != tr.Pkg.Path() {
+					continue
+				}
+				env := &Env{tr: tr, vars: vars, st: st, old: prev, pkg: tr.Pkg, allocOld: tr.cur(prev, compAlloc), assuming: true}
+				tr.assume(tr.evalClause(env, m.Cl))
+			}
+		}
 	}
 	for _, m := range tr.W.C.Monitors {
 		if m.Pkg != tr.Pkg.Path() {
@@ -540,7 +579,8 @@ func (tr *FnCtx) monitorEnter(st *State, args []*Val) {
 		env := &Env{tr: tr, vars: vars, st: st, old: tr.entry, pkg: tr.Pkg, allocOld: tr.allocEntry}
 		tr.assume(tr.evalClause(env, m.Cl))
 	}
-	tr.lockSnap = st.clone()
+	st.LockSnap = nil
+	st.LockSnap = st.clone()
 	tr.applyEntryAssumes(st)
 }
 
@@ -555,12 +595,24 @@ func (tr *FnCtx) monitorExit(st *State, args []*Val) {
 			continue
 		}
 		old := tr.entry
-		if tr.lockSnap != nil {
-			old = tr.lockSnap
+		if st.LockSnap != nil {
+			old = st.LockSnap
 		}
 		env := &Env{tr: tr, vars: vars, st: st, old: old, pkg: tr.Pkg, allocOld: tr.allocEntry}
 		tr.oblige(fmt.Sprintf("%s/monitor[%s]", tr.Short, m.Cl.Label), "monitor", tr.evalClause(env, m.Cl), m.Cl.Src)
 	}
+	// guarantee: the rely conditions of the package hold between acquisition and release of this critical section
+	if st.LockSnap != nil {
+		for _, m := range tr.W.C.Relies {
+			if m.Pkg != tr.Pkg.Path() {
+				continue
+			}
+			env := &Env{tr: tr, vars: vars, st: st, old: st.LockSnap, pkg: tr.Pkg, allocOld: tr.cur(st.LockSnap, compAlloc)}
+			tr.oblige(fmt.Sprintf("%s/guarantee[%s]", tr.Short, m.Cl.Label), "monitor", tr.evalClause(env, m.Cl), m.Cl.Src+" (guaranteed by this critical section)")
+		}
+	}
+	st.UnlockSnap = nil
+	st.UnlockSnap = st.clone()
 }
 
 func (tr *FnCtx) sortSortMods(instr ssa.Instruction) ([]Comp, bool) {
